@@ -94,6 +94,7 @@ inductive Event where
   | tooLong
   | chTooLong (c : Nat)
   | apiRestore (p q : Int)   -- `restoreAccessHash`: a getDifference only to learn a channel's access hash
+  | storeSeq (v : Int)       -- `SetSeq` (`applySeq`, `applyCombined` of a container with a seq)
   deriving DecidableEq, Repr
 
 /-! ### The fake server (harness/c02/mgr/world.go) -/
@@ -122,6 +123,8 @@ structure World where
   /-- declared first-contact positions of channels without stored state (derived by the harness
   from what it sends; verified by the model at creation time) -/
   cr : List (Nat × Int) := []
+  /-- the server's `seq` (number of the last container it has sent, delivered or not) -/
+  seqNow : Nat := 0
   deriving Repr
 
 def World.happened (w : World) : List Entry := w.log.take w.emitted
@@ -220,9 +223,21 @@ structure Mgr where
   ops : List (Nat × SOp) := []
   /-- the scenario declared a first-contact position that is not what happened -/
   bad : Bool := false
+  /-- the `seq` box: its updates are whole containers (`tag` = index into `parked`) -/
+  seq : Box := { state := 0 }
+  /-- the containers that went through the seq box -/
+  parked : List (List Entry) := []
   deriving Repr
 
 def Mgr.emit (m : Mgr) (evs : List Event) : Mgr := { m with trace := m.trace ++ evs }
+/-- `s.seq.SetState(v)`. -/
+def Mgr.setSeqState (m : Mgr) (v : Int) : Mgr := { m with seq := { m.seq with state := v } }
+/-- `s.seq.SetState(state.Seq)` with the seq of a difference answer (the server's current seq). -/
+def Mgr.setSeqNow (m : Mgr) : Mgr := m.setSeqState m.w.seqNow
+/-- any other change of the seq box (buffer, gaps, timer) -/
+def Mgr.withSeq (m : Mgr) (b : Box) : Mgr := { m with seq := b }
+/-- `s.seq.gaps.Clear()`. -/
+def Mgr.clearSeqGaps (m : Mgr) : Mgr := m.withSeq { m.seq with gaps := [] }
 def Mgr.logOp (m : Mgr) (k : Nat) (op : SOp) : Mgr := { m with ops := m.ops ++ [(k, op)] }
 
 /-- The per-sequence view of one call: does it dispatch / persist / set the box / report
@@ -348,6 +363,32 @@ def Mgr.applyCombined (O : Orders) (m : Mgr) (container : List Entry) : Mgr :=
   let plains := sorted.filter (·.kind == .plain)
   if plains.isEmpty then m else m.emit [.dispatch (plains.map (·.id))]
 
+/-- `applyCombined` of a container that carries a seq: after routing, `SetSeq` and `seq.SetState`
+(containers carry no date in the scenarios). -/
+def Mgr.applyCombinedSeq (O : Orders) (m : Mgr) (container : List Entry) (seq : Int) : Mgr :=
+  let m := m.applyCombined O container
+  if seq > 0 then (m.setSeqState seq).emit [.storeSeq seq] else m
+
+/-- The `applySeq` callback for the events of one `seq.Handle`: every container of an applied
+batch goes through `applyCombined`, then `SetSeq(new state)`. -/
+def Mgr.applySeqEvs (O : Orders) (m : Mgr) : List TdModel.C01.Ev → Mgr
+  | [] => m
+  | .apply ns us _ :: rest =>
+    let m := us.foldl (fun (m : Mgr) u => m.applyCombinedSeq O (m.parked.getD u.tag []) u.state) m
+    Mgr.applySeqEvs O (m.emit [.storeSeq ns]) rest
+  | _ :: rest => Mgr.applySeqEvs O m rest
+
+/-- `internalState.handleSeq` for a container with `seq_start = a`, `seq = b`. -/
+def Mgr.handleSeq (O : Orders) (m : Mgr) (container : List Entry) (a b : Nat) : Mgr :=
+  if b = 0 then m.applyCombined O container
+  else
+    let u : Upd := { state := b, count := (b : Int) - a + 1, tag := m.parked.length }
+    let m := { m with parked := m.parked ++ [container] }
+    let r := TdModel.C01.handle m.seq u true
+    -- the callback runs (the box's buffer already trimmed), then the box takes its new state
+    let m := m.applySeqEvs O r.2
+    m.withSeq r.1
+
 def ownCommon (e : Entry) : Bool :=
   e.kind == .msg || e.kind == .other || e.kind == .qts || e.kind == .qother
 
@@ -357,6 +398,7 @@ def Mgr.diffPreludeStep (O : Orders) (st : Mgr × Option DiffAns) (c : Call) : M
   match c with
   | .clearPts => (st.1.seqOp O 0 .clear, st.2)
   | .clearQts => (st.1.seqOp O 1 .clear, st.2)
+  | .clearSeq => (st.1.clearSeqGaps, st.2)
   | .apiDiff =>
     let r := st.1.w.commonDiff st.1.pts.state st.1.qts.state
     (({ st.1 with w := r.1 }).emit [.apiDiff st.1.pts.state st.1.qts.state], some r.2)
@@ -365,7 +407,10 @@ def Mgr.diffPreludeStep (O : Orders) (st : Mgr × Option DiffAns) (c : Call) : M
 /-- The `setState` closure: one `SetState` event; the pts and the qts box take their new
 positions through their own per-sequence view of the whole branch. -/
 def Mgr.diffSetState (O : Orders) (calls : List Call) (p q : Int) (ptsDirect qtsDirect : List Entry) (m : Mgr) : Mgr :=
-  let m := O.diffSetState.foldl (fun (m : Mgr) c => if c = .storeState then m.emit [.storeState p q] else m) m
+  let m := O.diffSetState.foldl (fun (m : Mgr) c =>
+    if c = .storeState then m.emit [.storeState p q]
+    else if c = .boxSetSeq then m.setSeqNow
+    else m) m
   let m := m.seqOpQuiet O 0 (.seq (seqCalls .storeState .boxSetPts O.diffSetState calls) p ptsDirect)
   m.seqOpQuiet O 1 (.seq (seqCalls .storeState .boxSetQts O.diffSetState calls) q qtsDirect)
 
@@ -393,7 +438,10 @@ def Mgr.getDifference (O : Orders) : Nat → Mgr → Mgr
     match st.2 with
     | none => m
     | some .error => m   -- `return errors.Wrap(err, "get difference")`: logged by the caller
-    | some .empty => m   -- SetDateSeq / seq.SetState only: no pts/qts effect
+    | some .empty =>
+      -- SetDateSeq / seq.SetState only: no pts/qts effect
+      O.diffEmpty.foldl (fun (m : Mgr) c =>
+        if c = .boxSetSeq then m.setSeqNow else m) m
     | some (.tooLong p) =>
       let m := m.seqOp O 0 (.seq (seqCalls .storePts .boxSetPts [] O.diffTooLong) p [])
       if O.diffTooLong.contains .recurse then Mgr.getDifference O fuel m else m
@@ -488,6 +536,8 @@ inductive Action where
   | extra (k : Nat) (ids : List Nat)   -- the next answer for key `k` (0 common, 2 + c channel) carries these too
   | failNext (k : Nat)                 -- the next difference request for key `k` fails (transient RPC error)
   | known (c : Nat)                    -- the client learns the access hash of channel `c`
+  | pushSeq (a b : Nat) (ids : List Nat)  -- a container numbered `seq_start = a .. seq = b` arrives
+  | emitSeq (n : Nat)                  -- the server's seq has reached `n` (containers that never arrive)
   deriving Repr
 
 def fuel0 : Nat := 64
@@ -522,6 +572,7 @@ def Mgr.act (O : Orders) (m : Mgr) : Action → Mgr
   | .wait =>
     let m := if m.pts.armed then (m.seqOp O 0 .fire).getDifference O fuel0 else m
     let m := if m.qts.armed then (m.seqOp O 1 .fire).getDifference O fuel0 else m
+    let m := if m.seq.armed then (m.withSeq { m.seq with armed := false }).getDifference O fuel0 else m
     (m.chans.map (·.id)).foldl (fun (m : Mgr) c =>
       match m.getBox (2 + c) with
       | some b => if b.armed then (m.seqOp O (2 + c) .fire).chGetDifference O c fuel0 else m
@@ -533,6 +584,13 @@ def Mgr.act (O : Orders) (m : Mgr) : Action → Mgr
   | .extra k ids => { m with w := { m.w with extra := (k, ids) :: m.w.extra.filter (·.1 != k) } }
   | .failNext k => { m with w := { m.w with failNext := k :: m.w.failNext } }
   | .known c => { m with w := { m.w with known := c :: m.w.known } }
+  | .pushSeq a b ids =>
+    let es := ids.filterMap fun i => m.w.log.find? (·.id == i)
+    let idx := ids.foldl (fun acc i => match m.w.log.findIdx? (·.id == i) with
+      | some j => max acc (j + 1) | none => acc) m.w.emitted
+    let m := { m with w := { m.w with emitted := idx, seqNow := max m.w.seqNow b } }
+    if es.isEmpty then m else m.handleSeq O es a b
+  | .emitSeq n => { m with w := { m.w with seqNow := max m.w.seqNow n } }
 
 /-- `Manager.Run` from a persisted state: startup differences, then the actions, each followed
 by quiescence. -/
